@@ -850,6 +850,10 @@ def r_layout(f):
                 from_other_param = any(x[0] == "param" and x[1] != 1 for x in walk(recv))
                 if from_other_param and not from_self:
                     continue
+                from .rules_misc import view_contiguous_at
+                if view_contiguous_at(f, b, bi):
+                    R.inst(b.ident, "chunks_exact* over the view's backing slice only where the view is known to be gap-free", True)
+                    continue
                 R.inst(b.ident, "no chunks_exact* over the view's strided backing slice", False)
                 R.fail(b.ident, "chunks_exact", "%s splits the view's backing slice with %s: that slice ends with the last row (length (rows-1)*stride + cols), so for a window narrower than its parent the final, shorter chunk - the last row - is silently skipped" % (b.ident, fn["name"]), b.where(t["span"]))
     R.require_floor(nfun, 30, "accessor functions")
